@@ -78,7 +78,18 @@ def make_case(args):
         if mode == "scale":
             k = 10 ** rng.uniform(-6, 6) if rng.random() < 0.7 else rng.choice([1e-6, 0.25, 4.0, 1e6])
             rec["k"] = k
-            rec["other"] = all_stats(da * k if dtype == "float64" else (da * np.float32(k)).astype("float32"), depth)
+            if rng.random() < 0.35:
+                # the same object scaled in place after its statistics were asked for once (S and kS are then one object)
+                rec["inplace"] = True
+                da2 = da.copy(deep=True)
+                all_stats(da2, depth)
+                if rng.random() < 0.5:
+                    da2 *= (k if dtype == "float64" else np.float32(k))
+                else:
+                    da2.values[...] = da2.values * (k if dtype == "float64" else np.float32(k))
+                rec["other"] = all_stats(da2, depth)
+            else:
+                rec["other"] = all_stats(da * k if dtype == "float64" else (da * np.float32(k)).astype("float32"), depth)
             rec["k"] = float(np.float32(k)) if dtype == "float32" else k
         elif mode == "rotate":
             a = rng.choice([rng.uniform(-720, 720), float(rng.randint(-400, 400)), 360.0 / nd * rng.randint(1, nd), 0.5])
